@@ -822,6 +822,104 @@ Section Crypto.
     else if negb (existsb is_supported_ds dss) then (true, false)
     else (false, false).
 
+
+  (* the first element of every class of [same], in order of appearance (the `seen` map of
+     uniqueSorted…), and insertion sort by a strict order *)
+  Fixpoint dedup_first {A} (same : A -> A -> bool) (seen l : list A) : list A :=
+    match l with
+    | [] => []
+    | x :: r => if existsb (same x) seen then dedup_first same seen r else x :: dedup_first same (x :: seen) r
+    end.
+  Fixpoint insert_sorted {A} (less : A -> A -> bool) (x : A) (l : list A) : list A :=
+    match l with
+    | [] => [x]
+    | y :: r => if less y x then y :: insert_sorted less x r else x :: l
+    end.
+  Definition sort_by {A} (less : A -> A -> bool) (l : list A) : list A := fold_right (insert_sorted less) [] l.
+
+  (* ---------------------------------------- verify.go: the DS set, in order *)
+  (* dsID: what uniqueSortedDSRecords keys and orders a DS by *)
+  Definition to_upper (s : list N) : list N := map upper s.
+  Definition ds_same (a b : ds) : bool :=
+    list_eqb (to_lower (fqdn (d_name a))) (to_lower (fqdn (d_name b)))
+    && (d_class a =? d_class b) && (d_keytag a =? d_keytag b) && (d_alg a =? d_alg b) && (d_dt a =? d_dt b)
+    && list_eqb (to_upper (d_digest a)) (to_upper (d_digest b)).
+  Definition ds_less (a b : ds) : bool :=
+    let na := to_lower (fqdn (d_name a)) in
+    let nb := to_lower (fqdn (d_name b)) in
+    if negb (list_eqb na nb) then bytes_lt na nb
+    else if negb (d_class a =? d_class b) then d_class a <? d_class b
+    else if negb (d_keytag a =? d_keytag b) then d_keytag a <? d_keytag b
+    else if negb (d_alg a =? d_alg b) then d_alg a <? d_alg b
+    else if negb (d_dt a =? d_dt b) then d_dt a <? d_dt b
+    else bytes_lt (to_upper (d_digest a)) (to_upper (d_digest b)).
+  (* uniqueSortedDSRecords: the first record of every identity, ascending (identities are distinct
+     after the first step, so every correct sort gives this list) *)
+  Definition unique_sorted_ds (l : list ds) : list ds := sort_by ds_less (dedup_first ds_same [] l).
+
+  (* dnskeyID / uniqueSortedDNSKEYs *)
+  Definition key_same (a b : dnskey) : bool :=
+    list_eqb (to_lower (fqdn (k_name a))) (to_lower (fqdn (k_name b)))
+    && (k_class a =? k_class b) && (k_flags a =? k_flags b) && (k_proto a =? k_proto b) && (k_alg a =? k_alg b)
+    && list_eqb (k_pub a) (k_pub b).
+  Definition key_less (a b : dnskey) : bool :=
+    let na := to_lower (fqdn (k_name a)) in
+    let nb := to_lower (fqdn (k_name b)) in
+    if negb (list_eqb na nb) then bytes_lt na nb
+    else if negb (k_class a =? k_class b) then k_class a <? k_class b
+    else if negb (k_flags a =? k_flags b) then k_flags a <? k_flags b
+    else if negb (k_proto a =? k_proto b) then k_proto a <? k_proto b
+    else if negb (k_alg a =? k_alg b) then k_alg a <? k_alg b
+    else bytes_lt (k_pub a) (k_pub b).
+  Definition unique_sorted_keys (l : list dnskey) : list dnskey :=
+    match l with
+    | [] | [_] => l
+    | _ => sort_by key_less (dedup_first key_same [] l)
+    end.
+
+  (* one supported DS of the loop in verifyDSWithWork(…, nil): 0 = a candidate matched (the function
+     returns), DS_MISSING_KSK / DS_MISMATCH = the value lastErr is left with *)
+  Definition DS_OK : N := 0.
+  Definition DS_MISSING_KSK : N := 1.
+  Definition DS_MISMATCH : N := 2.
+  Definition DS_UNSUPPORTED : N := 3.   (* ErrFailedToConvertKSK *)
+  Definition ds_step (keymap : list (N * list dnskey)) (d : ds) : N :=
+    match find (fun p => fst p =? d_keytag d) keymap with
+    | None => DS_MISSING_KSK
+    | Some p =>
+      let cands := unique_sorted_keys (filter (usable_ds_candidate d) (snd p)) in
+      if is_nil cands then DS_MISSING_KSK else
+      match hex_decode (d_digest d) with
+      | None => DS_MISMATCH
+      | Some [] => DS_MISMATCH
+      | Some want => if existsb (fun k => ds_digest_matches k (d_dt d) want) cands then DS_OK else DS_MISMATCH
+      end
+    end.
+  (* the loop: None = returned (false, nil) from inside; Some e = fell through with lastErr = e (0: nil) *)
+  Fixpoint ds_loop (keymap : list (N * list dnskey)) (l : list ds) (last : N) : option N :=
+    match l with
+    | [] => Some last
+    | d :: r =>
+      if negb (is_supported_ds d) then ds_loop keymap r last
+      else let e := ds_step keymap d in if e =? DS_OK then None else ds_loop keymap r e
+    end.
+  (* verifyDSWithWork(keyMap, set, nil) = (unsupportedOnly, which error) *)
+  Definition verify_ds_code (keymap : list (N * list dnskey)) (dss : list ds) : bool * N :=
+    let l := unique_sorted_ds dss in
+    match ds_loop keymap l 0 with
+    | None => (false, DS_OK)
+    | Some last =>
+      if is_nil l then (false, DS_MISSING_KSK)
+      else if negb (existsb is_supported_ds l) then (true, DS_UNSUPPORTED)
+      else (false, if last =? 0 then DS_MISSING_KSK else last)
+    end.
+
+  (* DSMatchedKeys(keyMap, set, nil) as the list of its non-empty buckets, in the order of the key map *)
+  Definition ds_matched_keys (keymap : list (N * list dnskey)) (dss : list ds) : list (N * list dnskey) :=
+    flat_map (fun p =>
+      let ks := filter (fun k => snd (verify_ds_code [(fst p, [k])] dss) =? DS_OK) (unique_sorted_keys (snd p)) in
+      if is_nil ks then [] else [(fst p, ks)]) keymap.
+
   (* ----------------------------------------------------- verify.go, RRSIG *)
   (* usableSignatureCandidate *)
   Definition usable_signature_candidate (s : rrsig) (k : dnskey) : bool :=
